@@ -9,7 +9,7 @@ given to the polling loop.  `cfg` ranges over the variant flags of M1; where the
 repaired service the hypothesis `Current cfg` says so (these are the flags the check identifies on
 the tree by replaying the witnesses of C06 / C07).
 -/
-import VizierModel.Lemmas.ClientCalls
+import VizierModel.Lemmas.ClientEffects
 import VizierModel.Props.C01
 import VizierModel.Props.C02
 import VizierModel.Props.C06
@@ -294,6 +294,14 @@ theorem client_promised_exceptions (cfg : Cfg) (fuel : Nat) (h : Handle) (c : Ca
   | suggest count w alg => exact hsug count w alg
   | getSuggestions count alg => exact hsug count h.cid alg
   | _ => rfl
+
+/-- **Documented effect of the single calls**, every state: a measurement given to `complete` is stored as
+    the final measurement and returned; `stop` on an ACTIVE trial leaves it STOPPING; `set_state(s)` stores
+    `s`; `Trial.delete` removes the trial; `update_metadata` for a trial that does not exist raises
+    RuntimeError (all-or-nothing datastore). -/
+theorem client_documented_effects (cfg : Cfg) (hc : cfg.metadataAtomic = true) (fuel : Nat) (h : Handle) (c : Call) (db : DB) :
+    effectsOK db (clientStep cfg fuel h c db).2 h c (clientStep cfg fuel h c db).1 = true :=
+  clientExec_effectsOK cfg hc fuel h c db
 
 def hA : Handle := { owner := "o", sid := "s", cid := "unused_client_id" }
 
